@@ -5,6 +5,7 @@ are stated as: the sampling map has range inside the volume (sphere) and constan
 (change of variables for densities: A3).
 """
 from pyvc.spec import *
+import numpy as np
 
 CG = "pyrex.generation.CylindricalGenerator"
 RG = "pyrex.generation.RectangularGenerator"
@@ -273,6 +274,203 @@ def cyl_exit_points_nnp():
 
 
 # ---------------------------------------------------------------------------
+# the remaining direction sign patterns: together with the harnesses above every one of the 26 patterns of a non-zero
+# direction is covered for both volumes (the patterns partition R^3 minus the origin, so the clause holds for every direction)
+# ---------------------------------------------------------------------------
+
+@harness(clause="exit-points-box")
+def box_exit_points_signs_ppn():
+    _box_checks((1, 1, -1))
+
+
+@harness(clause="exit-points-box")
+def box_exit_points_signs_ppz():
+    _box_checks((1, 1, 0))
+
+
+@harness(clause="exit-points-box")
+def box_exit_points_signs_pnn():
+    _box_checks((1, -1, -1))
+
+
+@harness(clause="exit-points-box")
+def box_exit_points_signs_pnz():
+    _box_checks((1, -1, 0))
+
+
+@harness(clause="exit-points-box")
+def box_exit_points_signs_pzp():
+    _box_checks((1, 0, 1))
+
+
+@harness(clause="exit-points-box")
+def box_exit_points_signs_pzz():
+    _box_checks((1, 0, 0))
+
+
+@harness(clause="exit-points-box")
+def box_exit_points_signs_npp():
+    _box_checks((-1, 1, 1))
+
+
+@harness(clause="exit-points-box")
+def box_exit_points_signs_nnp():
+    _box_checks((-1, -1, 1))
+
+
+@harness(clause="exit-points-box")
+def box_exit_points_signs_nnz():
+    _box_checks((-1, -1, 0))
+
+
+@harness(clause="exit-points-box")
+def box_exit_points_signs_nzp():
+    _box_checks((-1, 0, 1))
+
+
+@harness(clause="exit-points-box")
+def box_exit_points_signs_nzn():
+    _box_checks((-1, 0, -1))
+
+
+@harness(clause="exit-points-box")
+def box_exit_points_signs_nzz():
+    _box_checks((-1, 0, 0))
+
+
+@harness(clause="exit-points-box")
+def box_exit_points_signs_zpp():
+    _box_checks((0, 1, 1))
+
+
+@harness(clause="exit-points-box")
+def box_exit_points_signs_zpn():
+    _box_checks((0, 1, -1))
+
+
+@harness(clause="exit-points-box")
+def box_exit_points_signs_zpz():
+    _box_checks((0, 1, 0))
+
+
+@harness(clause="exit-points-box")
+def box_exit_points_signs_znp():
+    _box_checks((0, -1, 1))
+
+
+@harness(clause="exit-points-box")
+def box_exit_points_signs_znn():
+    _box_checks((0, -1, -1))
+
+
+@harness(clause="exit-points-box")
+def box_exit_points_signs_znz():
+    _box_checks((0, -1, 0))
+
+
+@harness(clause="exit-points-box")
+def box_exit_points_signs_zzp():
+    _box_checks((0, 0, 1))
+
+
+@harness(clause="exit-points-cylinder")
+def cyl_exit_points_signs_ppn():
+    _cyl_checks((1, 1, -1))
+
+
+@harness(clause="exit-points-cylinder")
+def cyl_exit_points_signs_ppz():
+    _cyl_checks((1, 1, 0))
+
+
+@harness(clause="exit-points-cylinder")
+def cyl_exit_points_signs_pnp():
+    _cyl_checks((1, -1, 1))
+
+
+@harness(clause="exit-points-cylinder")
+def cyl_exit_points_signs_pnn():
+    _cyl_checks((1, -1, -1))
+
+
+@harness(clause="exit-points-cylinder")
+def cyl_exit_points_signs_pzp():
+    _cyl_checks((1, 0, 1))
+
+
+@harness(clause="exit-points-cylinder")
+def cyl_exit_points_signs_pzn():
+    _cyl_checks((1, 0, -1))
+
+
+@harness(clause="exit-points-cylinder")
+def cyl_exit_points_signs_pzz():
+    _cyl_checks((1, 0, 0))
+
+
+@harness(clause="exit-points-cylinder")
+def cyl_exit_points_signs_npp():
+    _cyl_checks((-1, 1, 1))
+
+
+@harness(clause="exit-points-cylinder")
+def cyl_exit_points_signs_npz():
+    _cyl_checks((-1, 1, 0))
+
+
+@harness(clause="exit-points-cylinder")
+def cyl_exit_points_signs_nnn():
+    _cyl_checks((-1, -1, -1))
+
+
+@harness(clause="exit-points-cylinder")
+def cyl_exit_points_signs_nnz():
+    _cyl_checks((-1, -1, 0))
+
+
+@harness(clause="exit-points-cylinder")
+def cyl_exit_points_signs_nzp():
+    _cyl_checks((-1, 0, 1))
+
+
+@harness(clause="exit-points-cylinder")
+def cyl_exit_points_signs_nzn():
+    _cyl_checks((-1, 0, -1))
+
+
+@harness(clause="exit-points-cylinder")
+def cyl_exit_points_signs_nzz():
+    _cyl_checks((-1, 0, 0))
+
+
+@harness(clause="exit-points-cylinder")
+def cyl_exit_points_signs_zpp():
+    _cyl_checks((0, 1, 1))
+
+
+# exactly vertical directions in the cylinder: the code divides by direction[1] == 0 and relies on the IEEE result
+# (+-inf, superseded by the top/bottom intersection) - outside the real-number model (A1), so this pattern is covered by
+# native sampling only (label B): random cylinders and interior vertices, both senses, directions of any length
+@harness(clause="exit-points-cylinder-vertical", bounded=40, label="B")
+def cyl_exit_points_vertical_sampled():
+    dr = real("dr", 1, 5000)
+    dz = real("dz", 1, 3000)
+    g = new(CG, dr, dz, energy=1000000000)
+    r = dr * real("r_frac", 0, 0.999)
+    th = real("theta", 0, 6.283)
+    v = np.array([r * np.cos(th), r * np.sin(th), -dz * real("z_frac", 0.001, 0.999)])
+    up = 1.0 if real("sense", -1, 1) >= 0 else -1.0
+    d = np.array([0.0, 0.0, up * real("length", 0.01, 100)])
+    p = new(PT, particle_id="nu_e", vertex=v, direction=d, energy=1000000000)
+    with np.errstate(all="ignore"):
+        enter, leave = g.get_exit_points(p)
+    want_enter = np.array([v[0], v[1], -dz if up > 0 else 0.0])
+    want_leave = np.array([v[0], v[1], 0.0 if up > 0 else -dz])
+    prove("enters-through-the-face-behind-the-vertex-straight-below-or-above-it", bool(np.allclose(enter, want_enter, rtol=0, atol=1e-9 * (dr + dz))))
+    prove("leaves-through-the-face-ahead-of-the-vertex-straight-above-or-below-it", bool(np.allclose(leave, want_leave, rtol=0, atol=1e-9 * (dr + dz))))
+
+
+# ---------------------------------------------------------------------------
 # weights, shadow rejection, counting
 # ---------------------------------------------------------------------------
 
@@ -450,6 +648,45 @@ def list_generator_2():
 @harness(clause="list-generator", label="B")
 def list_generator_3():
     _list_checks(3)
+
+
+class _Events:
+    """an event list of arbitrary (symbolic) length: create_event may ask its length and index it"""
+
+    def __init__(self, n):
+        self.n = n
+        self.asked = []
+
+    def __len__(self):
+        return self.n
+
+    def __getitem__(self, i):
+        self.asked.append(i)
+        return ("event", len(self.asked))
+
+
+@harness(clause="list-generator-any-length")
+def list_generator_any_length():
+    """the same clauses for a list of any length n >= 1 (n symbolic): the k-th throw returns the element at position
+    k mod n, the position advances by one, a non-looping generator stops exactly when k >= n and leaves its state"""
+    n = integer("n")
+    k = integer("index")
+    extra = integer("additional")
+    assume(And(n >= 1, k >= 0))
+    for loop in (True, False):
+        evs = _Events(n)
+        g = obj(LG, events=evs, loop=loop, _index=k, _additional_counts=extra)
+        prove("count-getter loop=%s" % loop, g.count == k + extra)
+        if Or(loop, k < n):
+            e = g.create_event()
+            prove("one-element-taken loop=%s" % loop, And(len(evs.asked) == 1, e == ("event", 1)))
+            pos = evs.asked[0]
+            prove("taken-at-position-k-mod-n loop=%s" % loop, And(pos >= 0, pos < n, (k - pos) % n == 0))
+            prove("index+1 loop=%s" % loop, g._index == k + 1)
+            prove("count+1 loop=%s" % loop, g.count == k + 1 + extra)
+        else:
+            prove("stops-after-last", raises("StopIteration", g.create_event))
+            prove("state-unchanged-on-stop", And(g._index == k, len(evs.asked) == 0))
 
 
 @harness(clause="list-generator")
